@@ -1,2 +1,59 @@
-/- C10 — property theorems (being extended); the writer model these will be about: -/
-import E57.Model.Writer
+/-
+C10 — The writer API is total and never stores what it cannot represent.
+
+Proved in E57/Proofs/WriterProps.lean (Parts B and C) on the writer model.  In the model every
+Rust panic site (slice index, arithmetic in checked builds, the never-ending loop of `finalize`
+with a packet capacity of zero) is the distinguished outcome `.panic`, so these are genuine
+theorems, not artefacts of totalisation.  The `writer` correspondence suite runs every call under
+`catch_unwind` in an overflow-checked build and must agree with the model on ok/err/panic.
+-/
+import E57.Proofs.WriterProps
+namespace E57.C10
+open E57
+
+/-- `add_pointcloud` never panics, for any prototype, guid and registered extensions -/
+theorem add_pointcloud_never_panics (pw : PW) (exts : List (String × String)) (guid : String)
+    (proto : Prototype) : ¬ ∃ s, PcW.new pw exts guid proto = .panic s :=
+  PcW.new_never_panics pw exts guid proto
+
+/-- it returns an error exactly when the prototype breaks the documented rules, uses an
+    unregistered/malformed extension name, or is so large that not a single point fits a packet -/
+theorem add_pointcloud_error_iff (pw : PW) (exts : List (String × String)) (guid : String)
+    (proto : Prototype) (hpw : pw.Inv) :
+    (∃ e, PcW.new pw exts guid proto = .err e) ↔
+      (validateExtensions proto exts = false ∨ validatePrototype proto = false ∨
+        maxPacketPoints proto = 0) := PcW.new_err_iff pw exts guid proto hpw
+
+/-- wrong arity, wrong kind or an integer outside the declared minimum..maximum is rejected -/
+theorem add_point_rejects (w : PcW) (pw : PW) (vs : List Value)
+    (h : vs.length ≠ w.prototype.length ∨ checkValues w.prototype vs = false) :
+    ∃ e, w.addPoint pw vs = .err e := addPoint_rejects w pw vs h
+
+/-- `add_point` never panics and keeps the writer and page-writer invariants -/
+theorem add_point_total (w : PcW) (pw : PW) (hw : w.Inv) (hpw : pw.Inv) (vs : List Value) :
+    (¬ ∃ s, w.addPoint pw vs = .panic s) ∧
+    ∀ pw' w', w.addPoint pw vs = .ok (pw', w') → w'.Inv ∧ pw'.Inv := addPoint_total w pw hw hpw vs
+
+/-- `finalize` of a point cloud never panics; in particular its drain loop terminates -/
+theorem pc_finalize_total (w : PcW) (pw : PW) (hw : w.Inv) (hpw : pw.Inv) :
+    ¬ ∃ s, w.finalize pw = .panic s := finalize_total w pw hw hpw
+
+/-- blobs: writing always succeeds on an ideal device and returns the descriptor (start, length) -/
+theorem add_blob_total (pw : PW) (data : Bytes) (hpw : pw.Inv) :
+    ∃ pw' b, blobWrite pw data = .ok (pw', b) ∧ pw'.Inv ∧ b.offset = pw.physicalPosition ∧
+      b.length = data.length := blobWrite_total pw data hpw
+
+/-- **Whole session.**  For a prototype with i64 bounds and distinct record names that
+    `add_pointcloud` accepted, every point that fits is accepted, `finalize` succeeds, and the
+    metadata pushed for the XML carries the exact bounds, the record count, prototype and guid. -/
+theorem session_succeeds (pw : PW) (exts : List (String × String)) (guid : String) (proto : Prototype)
+    (hpw : pw.Inv) (hi : ProtoI64 proto) (hn : NoDupNames proto)
+    (pw0 : PW) (w0 : PcW) (hnew : PcW.new pw exts guid proto = .ok (pw0, w0))
+    (pts : List (List Value))
+    (hpts : ∀ pt ∈ pts, pt.length = proto.length ∧ checkValues proto pt = true) :
+    ∃ pw1 w1 pw2 w2 pc, addPoints pts (pw0, w0) = .ok (pw1, w1) ∧
+      w1.finalize pw1 = .ok (pw2, w2, pc) ∧ pw2.Inv ∧
+      BoundsExact proto pts pc ∧ pc.records = pts.length ∧ pc.prototype = proto ∧
+      pc.guid = some guid := session_ok pw exts guid proto hpw hi hn pw0 w0 hnew pts hpts
+
+end E57.C10
